@@ -165,7 +165,22 @@ pub fn behaviour(b: u64, rng: &mut Rng, out: &mut Out, big: bool, big_hi: u64) -
                 let l: Vec<i64> = nodes.unwrap_or_default().iter().map(|x| index.get(&(*x.id().as_bytes(), x.address())).map(|i| *i as i64 + 1).unwrap_or(-1)).collect();
                 served.insert(name.to_string(), json!(l));
             }
-            json!({"e":"op","op":"closest","t":id_json(&t),"ans":idxs,"served":served})
+            // the same with a NON-empty signed-peers table that holds a subset of the main table's nodes (peers that support
+            // signed announcements are in both tables): find_node answers draw on both tables
+            let mut signed = RoutingTable::new(Id::from(tid));
+            let mut in_signed = vec![];
+            for n in table.nodes() {
+                if rng.chance(1, 2) {
+                    signed.add(Node::new(*n.id(), n.address()));
+                    if let Some(i) = index.get(&(*n.id().as_bytes(), n.address())) {
+                        in_signed.push(*i as i64 + 1);
+                    }
+                }
+            }
+            let both = v::served_nodes(&table, &signed, from, v::RequestSpecific { requester_id, request_type: v::RequestTypeSpecific::FindNode(v::FindNodeRequestArguments { target }) });
+            let both_l: Vec<i64> = both.unwrap_or_default().iter().map(|x| index.get(&(*x.id().as_bytes(), x.address())).map(|i| *i as i64 + 1).unwrap_or(-1)).collect();
+            let signed_closest: Vec<i64> = signed.closest(target).iter().map(|x| index.get(&(*x.id().as_bytes(), x.address())).map(|i| *i as i64 + 1).unwrap_or(-1)).collect();
+            json!({"e":"op","op":"closest","t":id_json(&t),"ans":idxs,"served":served,"in_signed":in_signed,"signed_closest":signed_closest,"served_both":both_l})
         } else {
             // accumulator: a random insertion order of a random subset
             let t = target_near(&u, rng);
